@@ -95,6 +95,25 @@ EXEC_POSITIONS = [
     ("subshell-redir", "( {X} ) 2>&1"), ("bg-subshell", "( {X} & )"), ("nested-fn", "f() { g() { {X}; }; g; }; f"),
     ("cmd-in-key", "declare -A m; m[$({X})]=1"), ("printf-v", "printf -v x %s $({X})"), ("read-here", "read x <<< $({X})"),
     ("mapfile", "mapfile -t a < <({X})"), ("exec-redirect", "exec 3< <({X})"), ("wait-bg", "{X} & wait"),
+    # builtins that evaluate an argument as a variable NAME: the array subscript in it is arithmetic, and bash runs the
+    # substitutions in it although the word is quoted
+    ("name-test-v", "test -v 'a[$({Xq})]'"), ("name-bracket-v", "[ -v 'a[$({Xq})]' ]"), ("name-cond-v", "[[ -v 'a[$({Xq})]' ]]"),
+    ("name-printf-v", "printf -v 'a[$({Xq})]' hi"), ("name-read", "read 'a[$({Xq})]' <<< 1"), ("name-read-r", "read -r b 'a[$({Xq})]' <<< '1 2'"),
+    ("name-read-bt", "read 'a[`{Xq}`]' <<< 1"), ("name-test-v-dq", 'test -v "a[\\$({X})]"'), ("name-unset", "unset 'a[$({Xq})]'"),
+    ("name-let", "let 'a[$({Xq})]=1'"), ("name-declare-i", "declare -i n='a[$({Xq})]'"), ("name-cond-eq", "[[ 'a[$({Xq})]' -eq 0 ]]"),
+    ("name-arith-cmd-q", "(( 'a[$({Xq})]' ))"), ("name-wait-p", "true & wait -p 'a[$({Xq})]' -n"),
+    # arithmetic evaluates the VALUE of a variable it names, recursively: a quoted subscript stored in a variable runs
+    ("value-arith-exp", "x='a[$({Xq})]'; echo $((x))"), ("value-arith-cmd", "x='a[$({Xq})]'; (( x ))"), ("value-cond", "x='a[$({Xq})]'; [[ $x -gt 0 ]]"),
+    ("value-subscript", "x='a[$({Xq})]'; echo ${b[x]}"), ("value-for", "for x in 'a[$({Xq})]'; do echo $((x)); done"),
+    ("value-read", "read x <<< 'a[$({Xq})]'; echo $((x))"), ("value-prefix", "x='a[$({Xq})]' eval 'echo $((x))'"),
+    ("value-indirect", "x='a[$({Xq})]'; y=x; echo $((y))"), ("value-substr", "x='a[$({Xq})]'; v=abc; echo ${v:x}"),
+    # variables that decide WHICH program a name runs (the jail has ../evilbin with the same names, logged as evil:<name>)
+    ("env-path", "PATH=../evilbin:$PATH {X}"), ("env-path-seq", "PATH=../evilbin:$PATH; {X}"), ("env-path-append", "PATH+=:../evilbin; PATH=${PATH#*:}; {X}"),
+    ("env-path-two", "A=1 PATH=../evilbin B=2 {X}"), ("env-path-sub", "( PATH=../evilbin:$PATH; {X} )"), ("env-path-fn", "f() { PATH=../evilbin:$PATH; {X}; }; f"),
+    ("env-path-env", "env PATH=../evilbin {X}"), ("env-path-export", "export PATH=../evilbin:$PATH; {X}"), ("env-path-declare", "declare -x PATH=../evilbin; {X}"),
+    ("env-path-hash", "hash -p ../evilbin/ls ls; {X}"), ("env-bashenv", "echo '{Xq}' > out/rc; BASH_ENV=out/rc bash -c ls"), ("env-ps4", "PS4='$({Xq})'; set -x; ls"),
+    # ... and the OUTPUT of a command substitution inside an arithmetic expansion (data the analyser cannot see: known finding)
+    ("value-output", "echo $(($(echo 'a[$({Xq})]')))"),
 ]
 
 # positions where bash does NOT execute the text (quoting, comments, quoted here-documents):
